@@ -102,6 +102,15 @@ func drawCase(rt *rapid.T, role string) H {
 	for i, k := 0, rapid.IntRange(2, 10).Draw(rt, "nbatches"); i < k; i++ {
 		b := Batch{First: rapid.IntRange(0, n-1).Draw(rt, "first")}
 		b.Size = rapid.IntRange(1, min(20, n-b.First)).Draw(rt, "size")
+		switch rapid.IntRange(0, 5).Draw(rt, "tail-batch") {
+		case 0: // the newest snapshot alone
+			b.First, b.Size = n-1, 1
+		case 1: // a run that ends with the newest snapshot
+			b.Size = n - b.First
+			if b.Size > 20 {
+				b.First, b.Size = n-20, 20
+			}
+		}
 		t := Tamper{Where: rapid.SampledFrom([]string{"none", "none", "gossip", "gossip", "store", "log"}).Draw(rt, "where")}
 		switch t.Where {
 		case "gossip":
